@@ -261,12 +261,20 @@ fn join_line(
                 let start = pt + s1_normal * offset;
                 let end = pt + s2_normal * offset;
                 if let Some(intersection) = line_intersection(start, s1_normal, end, s2_normal) {
-                    // We won't have an intersection if the segments are parallel
-                    dest.move_to(pt.x + s1_normal.x * offset, pt.y + s1_normal.y * offset);
-                    dest.line_to(intersection.x, intersection.y);
-                    dest.line_to(pt.x + s2_normal.x * offset, pt.y + s2_normal.y * offset);
-                    dest.line_to(pt.x, pt.y);
-                    dest.close();
+                    // We won't have an intersection if the segments are parallel.
+                    // When they are very close to parallel the intersection is ill-conditioned
+                    // and can come out arbitrarily far away. A real miter tip is never farther
+                    // from the join than miter_limit * offset, so anything beyond is noise.
+                    let limit = style.miter_limit * offset * 1.001;
+                    if (intersection - pt).square_length() <= limit * limit {
+                        dest.move_to(pt.x + s1_normal.x * offset, pt.y + s1_normal.y * offset);
+                        dest.line_to(intersection.x, intersection.y);
+                        dest.line_to(pt.x + s2_normal.x * offset, pt.y + s2_normal.y * offset);
+                        dest.line_to(pt.x, pt.y);
+                        dest.close();
+                    } else {
+                        bevel(dest, style, pt, s1_normal, s2_normal);
+                    }
                 }
             } else {
                 bevel(dest, style, pt, s1_normal, s2_normal);
